@@ -197,8 +197,23 @@ def check_case(case, res, prior=None):
         for index, ents in ((0x1c12, rxe or []), (0x1c13, txe or [])):
             # one PDO per assignment holding all entries (<= 255)
             groups = [ents[i:i + 8] for i in range(0, len(ents), 8)]
-            objs[index, 0] = struct.pack("B", len(groups))
-            for gi, g in enumerate(groups, 1):
+            # unassigned slots (value 0) anywhere in the assignment list,
+            # as left behind when a PDO was taken out
+            srng = random.Random(case["busyseed"] + index)
+            slots = []
+            for g in groups:
+                while srng.random() < 0.25:
+                    slots.append(None)
+                slots.append(g)
+            while srng.random() < 0.25:
+                slots.append(None)
+            if any(x is None for x in slots):
+                res.count("assignment_lists_with_empty_slots")
+            objs[index, 0] = struct.pack("B", len(slots))
+            for gi, g in enumerate(slots, 1):
+                if g is None:
+                    objs[index, gi] = struct.pack("<H", 0)
+                    continue
                 pdo = 0x1600 + gi + (0x400 if index == 0x1c13 else 0)
                 objs[index, gi] = struct.pack("<H", pdo)
                 objs[pdo, 0] = struct.pack("B", len(g))
@@ -329,6 +344,11 @@ def run_shard(params):
     for i in range(params["n"]):
         case = gen_case(rng, with_mailbox=(i % 4 == 3))
         prior = gen_case(rng, with_mailbox=False) if i % 3 == 1 else None
+        if prior is not None and i % 2:
+            # the image read before belongs to a terminal of the same type
+            # and revision (other serial number, other contents)
+            prior["ident"][:3] = case["ident"][:3]
+            res.count("rereads_after_an_image_of_the_same_identity")
         check_case(case, res, prior=prior)
     return res
 
